@@ -52,7 +52,7 @@ def install(E):
         if isinstance(x, Str):
             return len(x.cps)
         if isinstance(x, PDict):
-            return len(x.d)
+            return len(x.d) + len(x.sym)
         if isinstance(x, (str, tuple, range)):
             return len(x)
         if isinstance(x, Obj):
@@ -874,7 +874,8 @@ def install_methods(E):
 
     # ---- dict
     def m_d_get(E_, o, k, default=None):
-        return o.d.get(E_.hashable(k), default)
+        r = E_.dict_get(o, k)
+        return default if r is NOTSET else r
 
     def m_d_setdefault(E_, o, k, default=None):
         E_.structural(o)
